@@ -56,9 +56,9 @@ TDQuery ==
   /\ Ev("dquery")
   /\ LET e == Rec[l]  c == DomCoords(I, e.st)  k == DomKey(I, e.st)
          front == DFront(store, e.depth, k)
-         exp == IsDominated(front, c, e.value, TRUE) IN
+         exp == k # NoDKey /\ IsDominated(front, c, e.value, TRUE) IN
      /\ devs' = Add(devs, Tag(Full /\ e.dominated # exp, "C10 verdict") \cup Tag(Full /\ e.dominated /\ exp /\ ~ThresholdSound(front, c, e.value, e.threshold, TRUE), "C10 threshold"))
-     /\ store' = (IF e.dominated THEN store ELSE DSet(store, e.depth, k, DInsert(front, c, e.value, TRUE)))
+     /\ store' = (IF e.dominated \/ k = NoDKey THEN store ELSE DSet(store, e.depth, k, DInsert(front, c, e.value, TRUE)))
   /\ SameBut /\ UNCHANGED <<P, wk, fired, primalMax>>
 TNoop == /\ (Ev("cinit") \/ Ev("wstart") \/ Ev("notified") \/ Ev("dclear_layer") \/ Ev("poll"))
          /\ Same /\ UNCHANGED <<P, wk, fired, primalMax, devs>>
